@@ -24,7 +24,7 @@ N = {"quick": 190, "thorough": 3500}
 VARS = ["PaVeBa", "PaVeBaGP-IH", "PaVeBaGP-DE", "PartialGP-rect", "PartialGP-ell", "VOGP", "EpsilonPAL", "Auer", "Auer-emp", "VOGP", "EpsilonPAL"]
 REQUIRE = {"quick": {"runs_reaching_200_rounds": 4, "must_discard": 300, "must_keep": 1500, "runs": 150, "vogp_ad_runs": 10, "frozen_witness_scenario_reached": 2, "large_pessimistic_set_runs": 3, "pessimistic_set_above_64_seen": 1, "frozen_witness_bandit_scenario_reached": 1, "auer_certified_only_by_per_objective_sum": 10,
                      **{f"must_discard::{v}": 5 for v in set(VARS)}, **{f"must_keep::{v}": 20 for v in set(VARS)}}}
-TIMEOUT = {"quick": 1500, "thorough": 7200}
+TIMEOUT = {"quick": 1500, "thorough": 14400}
 
 
 def make(rng, variant):
